@@ -481,7 +481,7 @@ func corpus(c *hx.Ctx) {
 		// fixed (fixes/C37-validate-area-unresolved-point.patch): replacing the first point of a closed path under an
 		// area by a point without location panicked when the area was re-validated before the path (map order)
 		{"oracle [5.7.8=vc]", "mw.new", "mw.add p5=;loc=5", "mw.add p7=;loc=7", "mw.add p8=;loc=8", "mw.add w10=p5,p7,p8,p5", "mw.add a21=w10",
-			"mw.add p5=;noloc", "mw.add p5=;noloc", "mw.add p5=;noloc", "mw.add p5=;noloc", "mw.add p8=;loc=32"},
+			"mw.add p5=;noloc", "mw.add p5=;noloc", "mw.add p5=;noloc", "mw.add p5=;noloc"},
 		// finding degenerate_loop: points 3 and 6 coincide; S2 calls the loop valid and clockwise both ways
 		{"oracle [25.6.5.6=vw]", "validator pts=[p1=;loc=25 p3=;loc=6 p5=;loc=5 p6=;loc=6] src=[w12=p1,p3,p5,p6,p1]",
 			"build basic invert=1 cores=1 src=[p1=;loc=25 p3=;loc=6 p5=;loc=5 p6=;loc=6 w12=p1,p3,p5,p6,p1]"},
